@@ -174,6 +174,9 @@ def explore(run, max_paths=4000):
             p.end = 'ok'
         except PathEnd as e:
             p.end = str(e)
+        except Undecided as e:
+            # outside the modelled subset on THIS path: the path decides nothing further, the others are still explored (their obligations stand)
+            p.end = 'undecided: ' + str(e)[:300]
         work.extend(p.alts)
         done.append(p)
     return done
